@@ -175,3 +175,35 @@ def configs(rng, n, w=None, h=None):
 
 
 ALL_CONFIGS_SMALL = ["%d %d %d %d 7 4" % (wv, e, r, z) for wv in range(3) for e in range(3) for r in (0, 1, 2) for z in (0, 2)]
+
+
+def short_histories(maxlen, cfgs):
+    """EVERY sequence of at most `maxlen` operations over an 18-operation alphabet on a 3x2 terminal (after the size has
+    been declared): two different elements, strings that stop short of / reach the last column, moves to the four kinds
+    of position, save, restore, two erases, hide, show, re-declaring the same size, declaring a smaller one, the bare
+    manipulators.  Systematic cover of short interaction patterns (e.g. save, restore, restore, move)."""
+    import itertools
+    a = "5 120 0 0 " + " ".join(map(str, DEFAULT_ATTR))
+    b = "18 195 169 0 0 1 0 0 0 9 0 0 1 24 27 5"
+    alphabet = ["we " + a, "we " + b, "ws 2 %s %s" % (a, b), "ws 3 %s %s %s" % (a, a, a), "mv 0 0", "mv 2 0", "mv 1 1", "mv 2 1",
+                "sv", "rs", "er 0", "er 4", "hc", "sc", "sz 3 2", "sz 2 2", "da", "re " + a]
+    out = []
+    k = 0
+    for n in range(1, maxlen + 1):
+        for seq in itertools.product(alphabet, repeat=n):
+            # after a shrink to 2x2 positions with x = 2 are outside the declared size: keep the script in the domain
+            shrunk = False
+            ok = True
+            for o in seq:
+                if o == "sz 2 2":
+                    shrunk = True
+                elif o == "sz 3 2":
+                    shrunk = False
+                elif shrunk and (o in ("mv 2 0", "mv 2 1")):
+                    ok = False
+                    break
+            if not ok:
+                continue
+            out.append(("T 0 ; sz 3 2 ; " + " ; ".join(seq), [cfgs[k % len(cfgs)]]))
+            k += 1
+    return out
